@@ -5,6 +5,7 @@ import os, json
 from vlib import *
 from statics_lib import hx, run_capture, get_header
 
+LAST_MODEL_LINES = []
 def prog_str(program, for_model=False):
     out = []
     for c in program:
@@ -170,6 +171,7 @@ def run_scenarios(scenarios, mm="n", harness=None, keep_root=None):
                 v, outs = take("crash")
                 runs.append(dict(kind='C', program=st[3], before=last_snap, after=None, out=outs, status=v, base=base, outdir=outdir))
         results.append(dict(runs=runs, raw=r, died=("died", "1") in fields, base=base, outdir=outdir))
+    LAST_MODEL_LINES[:] = mlines
     mo = run_model("build", mlines)
     for run, l in zip(mrefs, mo):
         d = dict(parse_ordered(l))
